@@ -158,6 +158,14 @@ func callAdapter(m string, vs []aval) (argv []string, ok bool) {
 		ad.PExpireAt(ctx, vs[0].s, time.Unix(vs[1].i, vs[2].i))
 		return done()
 	}
+	for _, b2 := range argvBatch2 {
+		if b2 == m {
+			if !callAdapter2(ad, m, vs) {
+				return nil, false
+			}
+			return done()
+		}
+	}
 	mv := reflect.ValueOf(ad).MethodByName(m)
 	if !mv.IsValid() {
 		return nil, false
@@ -220,7 +228,7 @@ func normToken(t string) string {
 func argvOp(c *Ctx, line string) {
 	w := strings.Fields(line)
 	if len(w) == 1 && w[0] == "covered" {
-		c.Emit(line, fmt.Sprint(len(argvSimple)+len(argvSpecial)), false)
+		c.Emit(line, fmt.Sprint(len(argvSimple)+len(argvSpecial)+len(argvBatch2)), false)
 		return
 	}
 	if len(w) < 2 || (w[0] != "argv" && w[0] != "!argv") {
@@ -254,6 +262,16 @@ func argvOp(c *Ctx, line string) {
 		if (w[1] == "SetNX" || w[1] == "SetXX") && len(toks) > 3 {
 			sort.Strings(toks[3:])
 		}
+		if w[1] == "XAdd" || strings.HasPrefix(w[1], "XTrim") {
+			// the adapter spells the exact-trim operator "=", go-redis leaves it out (same meaning)
+			kept := toks[:0]
+			for _, t := range toks {
+				if t != "=" {
+					kept = append(kept, t)
+				}
+			}
+			toks = kept
+		}
 	}
 	hs := make([]string, len(toks))
 	for i, t := range toks {
@@ -266,6 +284,17 @@ func argvOp(c *Ctx, line string) {
 		!(len(argv) == 3 && strings.EqualFold(argv[2], "PERSIST")) {
 		c.Fail("argv:GetEx:zero-expiration-no-persist", line,
 			fmt.Sprintf("adapter.GetEx(key, 0) sends %q; go-redis v9 sends GETEX key PERSIST (a zero expiration removes the TTL)", argv))
+	}
+	if w[0] == "argv" && zRangeRevBy(w[1], vs) {
+		o := 0
+		if w[1] == "ZRangeStore" {
+			o = 1
+		}
+		// position of <start> in the argv: after the command name and the key(s)
+		if p := 2 + o; len(argv) > p+1 && argv[p] == vs[o+1].s && argv[p+1] == vs[o+2].s {
+			c.Fail("argv:ZRangeArgs:rev-by-start-stop-not-swapped", line,
+				fmt.Sprintf("adapter.%s with Rev and ByScore/ByLex sends %q: <start> <stop> as given; go-redis v9 swaps them (ZRangeArgs.appendArgs)", w[1], argv))
+		}
 	}
 	if w[0] == "argv" && w[1] == "ScanType" && len(vs) == 4 && vs[3].kind == "s" && vs[3].s == "" &&
 		len(argv) >= 2 && strings.EqualFold(argv[len(argv)-2], "TYPE") {
@@ -381,6 +410,7 @@ func runArgv(c *Ctx) {
 		emit(true, "ScanType", I(0), S(""), I(0), S(""))
 		emit(true, "ScanType", I(5), S("u_*"), I(10), S(""))
 	}
+	runArgv2(c, emit)
 	// random joint values
 	for i := 0; i < c.N; i++ {
 		d := durs[c.Rng.IntN(len(durs))]
